@@ -113,9 +113,13 @@ namespace verif
 
     Verdict run_case(const uint8_t* data, size_t size, Report& rep)
     {
-        Choices c(data, size);
+        // request and response each decode their own half of the input: decoded one after the other
+        // from a single stream the request used it up in about half of all cases and the response was
+        // the all-defaults one (measured: 145 of 300 responses were "100, no headers, no body")
+        Choices c(data, size / 2);
+        Choices c2(data + size / 2, size - size / 2);
         ReqSpec req   = reqgen::make(c, 32 * 1024);
-        RespSpec resp = respgen::make(c, true, 20000);
+        RespSpec resp = respgen::make(c2, true, 20000);
         std::string ctx = "request " + req.describe() + " -> response " + resp.describe();
         rep.label(std::string("method:") + Http::methodString(req.method));
         rep.label(resp.streamed ? "response:streamed" : "response:fixed");
